@@ -26,6 +26,7 @@ import (
 var (
 	ErrSeekFail           = errors.New("failed to seek properly")
 	ErrUnrecognizedWhence = errors.New("unrecognized whence")
+	ErrNegativeOffset     = errors.New("seek to a negative offset")
 	ErrNotUnixfs          = errors.New("dagmodifier only supports unixfs nodes (proto or raw)")
 )
 
@@ -702,34 +703,37 @@ func (dm *DagModifier) Seek(offset int64, whence int) (int64, error) {
 		return 0, err
 	}
 
-	var newoffset uint64
+	var newoffset int64
 	switch whence {
 	case io.SeekCurrent:
-		newoffset = dm.curWrOff + uint64(offset)
+		newoffset = int64(dm.curWrOff) + offset
 	case io.SeekStart:
-		newoffset = uint64(offset)
+		newoffset = offset
 	case io.SeekEnd:
-		newoffset = uint64(fisize) - uint64(offset)
+		newoffset = fisize + offset
 	default:
 		return 0, ErrUnrecognizedWhence
 	}
+	if newoffset < 0 {
+		return 0, ErrNegativeOffset
+	}
 
-	if int64(newoffset) > fisize {
-		if err := dm.expandSparse(int64(newoffset) - fisize); err != nil {
+	if newoffset > fisize {
+		if err := dm.expandSparse(newoffset - fisize); err != nil {
 			return 0, err
 		}
 	}
-	dm.curWrOff = newoffset
-	dm.writeStart = newoffset
+	dm.curWrOff = uint64(newoffset)
+	dm.writeStart = uint64(newoffset)
 
 	if dm.read != nil {
-		_, err = dm.read.Seek(offset, whence)
+		_, err = dm.read.Seek(newoffset, io.SeekStart)
 		if err != nil {
 			return 0, err
 		}
 	}
 
-	return int64(dm.curWrOff), nil
+	return newoffset, nil
 }
 
 // Truncate truncates the current Node to 'size' and replaces it with the
